@@ -72,6 +72,9 @@ type Ctx struct {
 	// EvidenceDir: where Finish writes (default <verif>/evidence); set only when the checker itself is being
 	// tested on a patched in-memory variant (check --patch), so the real evidence is not overwritten.
 	EvidenceDir string
+	// curMay: the may-effects of the return class / event whose requirement is being evaluated (forbidden
+	// effects are looked up in the must-set and in this set)
+	curMay term.Set
 }
 
 func NewCtx(p *Prop, tier string) *Ctx {
@@ -132,7 +135,9 @@ func (c *Ctx) Run(which, key string) *interp.RunResult {
 		return nil
 	}
 	t0 := time.Now()
+	m0 := e.Merges
 	r := e.Run(fn)
+	c.Stats["path_class_merges"] += e.Merges - m0
 	if os.Getenv("VERIF_TIMING") != "" {
 		fmt.Printf("TIMING run %s: %.2fs, %d events\n", key, time.Since(t0).Seconds(), len(r.Events))
 	}
